@@ -187,6 +187,64 @@ def _kind_of(ty):
     return None
 
 
+def _rewrite_mem(ctx, blk, t, name):
+    """`let old = std::mem::take(&mut x);` / `mem::replace(&mut x, v)` on a bool, an integer or an Option written out as the
+    read and the write they are (`old = x; x = false|0|None|v`): a test-and-reset of a flag is then a test and a reset"""
+    args = t.get("args", [])
+    if len(args) != (1 if name == "take" else 2):
+        return False
+    r = (args[0].get("move") or args[0].get("copy")) if isinstance(args[0], dict) else None
+    if not isinstance(r, dict) or r.get("p"):
+        return False
+    # the reference must be made in this block, for this call only
+    idx = [i for i, s_ in enumerate(blk["stmts"]) if s_.get("k") == "assign" and (s_.get("lhs") or {}).get("l") == r["l"] and not (s_.get("lhs") or {}).get("p")]
+    if len(idx) != 1:
+        return False
+    rv = blk["stmts"][idx[0]].get("rv") or {}
+    if rv.get("k") != "ref" or rv.get("bk") == "shared" or not isinstance(rv.get("p"), dict):
+        return False
+    uses = 0
+    for b2 in ctx.cj["blocks"]:
+        for s2 in b2["stmts"]:
+            if ("\"l\": %d}" % r["l"]) in __import__("json").dumps(s2.get("rv", {})) or ("\"l\": %d," % r["l"]) in __import__("json").dumps(s2.get("rv", {})):
+                uses += 1
+    place = rv["p"]
+    drop_idx = [idx[0]]
+    # a reborrow (`&mut *r` with `r = &mut x` made just before): write through to x itself
+    for _ in range(3):
+        if place.get("p") == ["*"]:
+            i2 = [i for i, s_ in enumerate(blk["stmts"]) if s_.get("k") == "assign" and (s_.get("lhs") or {}).get("l") == place["l"] and not (s_.get("lhs") or {}).get("p")]
+            rv2 = (blk["stmts"][i2[0]].get("rv") or {}) if len(i2) == 1 else {}
+            if rv2.get("k") == "ref" and rv2.get("bk") != "shared" and isinstance(rv2.get("p"), dict):
+                place = rv2["p"]
+                drop_idx.append(i2[0])
+                continue
+        break
+    dty = ctx.ty(t["dest"]["l"])
+    sp = t.get("sp")
+    if name == "take":
+        if dty == "bool":
+            newv = _use(_const_bool(False))
+        elif dty in ("usize", "u8", "u16", "u32", "u64", "i8", "i16", "i32", "i64", "isize"):
+            newv = _use({"const": {"ty": dty, "text": "0_%s" % dty, "k": "int", "v": 0}})
+        elif dty.startswith(OPTION + "<"):
+            newv = _agg(OPTION, "None", 0, [])
+        else:
+            return False
+    else:
+        if not (dty == "bool" or dty in ("usize", "u8", "u16", "u32", "u64", "i8", "i16", "i32", "i64", "isize") or dty.startswith(OPTION + "<")):
+            return False
+        newv = _use(copy.deepcopy(args[1]))
+    if uses > 0:
+        return False
+    for i_ in sorted(drop_idx, reverse=True):
+        del blk["stmts"][i_]
+    blk["stmts"].append(_assign(copy.deepcopy(t["dest"]), _use({"copy": copy.deepcopy(place)}), sp))
+    blk["stmts"].append(_assign(copy.deepcopy(place), newv, sp))
+    blk["term"] = {"k": "goto", "target": t["target"], "sp": sp, "desugared_call": "mem::" + name}
+    return True
+
+
 def _rewrite(ctx, bi):
     cj = ctx.cj
     blk = cj["blocks"][bi]
@@ -195,6 +253,8 @@ def _rewrite(ctx, bi):
     callee = t.get("callee") or ""
     if t.get("target") is None or not isinstance(t.get("dest"), dict) or t["dest"].get("p"):
         return False
+    if name in ("take", "replace") and callee.startswith(("std::mem::", "core::mem::")):
+        return _rewrite_mem(ctx, blk, t, name)
     fam = "option" if callee.startswith(OPTION + "::") else "result" if callee.startswith(RESULT + "::") else "bool" if "<impl bool>::" in callee or callee.startswith("core::bool::") else None
     if fam is None:
         return False
